@@ -77,7 +77,7 @@ class Prop:
     engine = "VT"
     quick_runs = 200000
     thorough_runs = 2000000
-    rule = ("seeded marble strings (<= 24 tokens) over the documented alphabet (single- and multi-character values, numbers, groups with "
+    rule = ("seeded marble strings (<= 24 tokens) over the documented alphabet (single- and multi-character values, numbers (also 17-19 digit integers, exponent floats), groups with "
             "commas, spaces, '-', '|', '#', sometimes elements after the terminal) with seeded timespans (1, 10, 0.5, 0.1), shifts and "
             "lookups; parse() is compared with an independent character scanner written from the documentation (times, kinds, values, "
             "ValueError), and from_marbles / cold / hot on a virtual-time scheduler must deliver exactly those notifications at those "
@@ -91,6 +91,8 @@ class Prop:
         toks = []
         n = rng.randrange(0, 10)
         vals = ["1", "2", "12", "a", "b", "ab", "3.5", "x1", "0"]
+        if rng.random() < 0.15:  # integer literals beyond 2**53 (exact as int, rounded by a detour through float), a float in exponent form
+            vals = vals + ["9007199254740993", "1695388800000000123", "1e3"]
         for _ in range(n):
             r = rng.random()
             if r < 0.4:
